@@ -69,6 +69,14 @@ type tcase struct {
 	Phases  [][]sendSpec `json:"phases"` // phase "reply" is generated at run time from what was received
 	Replies bool         `json:"replies"`
 	Seed    int64        `json:"seed"`
+	// Handover: before the last phase these sockets are closed; with Rebind a successor socket is bound to the same address
+	// (it inherits the predecessor's send specs). Datagrams of the last phase must reach the successor only, or nobody.
+	Handover []handSpec `json:"handover,omitempty"`
+}
+
+type handSpec struct {
+	Sock   int  `json:"sock"`
+	Rebind bool `json:"rebind"`
 }
 
 // ---------------- runtime model ----------------
@@ -121,7 +129,15 @@ type sockM struct {
 	done      chan struct{}
 	isFlush   bool
 	marks     chan struct{}
+	from      int    // first phase in which the socket is open
+	until     int    // first phase in which it is closed (openEnd: never closed before the end)
+	succ      *sockM // socket bound to the same address after this one was closed
 }
+
+const openEnd = 1 << 30
+
+// openIn reports whether the socket is bound during the given traffic phase.
+func (s *sockM) openIn(phase int) bool { return s.from <= phase && phase < s.until }
 
 type hopEv struct {
 	seq    int64
@@ -357,25 +373,68 @@ func (w *world) openSockets() error {
 			return fmt.Errorf("socket %d (%s:%d on host %d): %w", i, ip, ss.Port, ss.Host, err)
 		}
 		la := conn.LocalAddr().(*net.UDPAddr)
-		s := &sockM{idx: i, host: hm, ip: la.IP.String(), port: la.Port, conn: conn, connected: connected, done: make(chan struct{})}
+		s := &sockM{idx: i, host: hm, ip: la.IP.String(), port: la.Port, conn: conn, connected: connected, done: make(chan struct{}), until: openEnd}
 		hm.socks = append(hm.socks, s)
 		w.socks = append(w.socks, s)
-		go func() {
-			defer close(s.done)
-			buf := make([]byte, 2000)
-			for {
-				n, from, err := conn.ReadFrom(buf)
-				if err != nil {
-					return
-				}
-				ev := recvEv{seq: atomic.AddInt64(&evSeq, 1), src: from.String(), payload: append([]byte{}, buf[:n]...)}
-				s.mu.Lock()
-				s.recv = append(s.recv, ev)
-				s.mu.Unlock()
-			}
-		}()
+		s.startReader()
 	}
 	return nil
+}
+
+func (s *sockM) startReader() {
+	conn := s.conn
+	go func() {
+		defer close(s.done)
+		buf := make([]byte, 2000)
+		for {
+			n, from, err := conn.ReadFrom(buf)
+			if err != nil {
+				return
+			}
+			ev := recvEv{seq: atomic.AddInt64(&evSeq, 1), src: from.String(), payload: append([]byte{}, buf[:n]...)}
+			s.mu.Lock()
+			s.recv = append(s.recv, ev)
+			s.mu.Unlock()
+		}
+	}()
+}
+
+// handover closes the listed sockets before phase pi (the network is flushed, so nothing is in flight) and binds
+// successors to the same addresses where asked. Returns a reason when the case cannot go on.
+func (w *world) handover(pi int, r *res.Result) string {
+	for _, h := range w.c.Handover {
+		if h.Sock >= len(w.socks) {
+			continue
+		}
+		s := w.socks[h.Sock]
+		if s.connected != "" || s.until != openEnd {
+			continue
+		}
+		s.conn.Close()
+		select {
+		case <-s.done:
+		case <-time.After(5 * time.Second):
+			return "inconclusive: reader of a closed socket did not stop"
+		}
+		s.until = pi
+		r.Count("sockets_closed_before_last_phase", 1)
+		if !h.Rebind {
+			continue
+		}
+		conn, err := s.host.net.ListenUDP("udp", vn.UDP(s.ip, s.port))
+		if err != nil {
+			// closing a socket frees its address (C13); report it here as well: the datagrams of the next phase depend on it
+			r.Count("rebind_refused", 1)
+			continue
+		}
+		n := &sockM{idx: len(w.socks), host: s.host, ip: s.ip, port: s.port, conn: conn, done: make(chan struct{}), from: pi, until: openEnd}
+		s.succ = n
+		s.host.socks = append(s.host.socks, n)
+		w.socks = append(w.socks, n)
+		n.startReader()
+		r.Count("sockets_rebound_on_a_freed_address", 1)
+	}
+	return ""
 }
 
 // flushAll sends a marker through every router queue, 2*depth+1 times: a router drains one FIFO in one goroutine, so a
@@ -578,7 +637,7 @@ func (w *world) check(r *res.Result) *viol {
 				var tgt *sockM
 				_, dport, _ := net.SplitHostPort(ev.dst)
 				for _, s := range n.socks {
-					if fmt.Sprint(s.port) == dport && (s.ip == "0.0.0.0" || s.ip == dip) {
+					if fmt.Sprint(s.port) == dport && (s.ip == "0.0.0.0" || s.ip == dip) && s.openIn(st.phase) {
 						tgt = s
 					}
 				}
@@ -739,7 +798,7 @@ func (w *world) check(r *res.Result) *viol {
 		}
 		var tgt *sockM
 		for _, s := range sd.sock.host.socks {
-			if s.port == da.Port && (s.ip == "0.0.0.0" || s.ip == da.IP.String()) {
+			if s.port == da.Port && (s.ip == "0.0.0.0" || s.ip == da.IP.String()) && s.openIn(sd.phase) {
 				tgt = s
 			}
 		}
@@ -950,6 +1009,18 @@ func genCase(rng *rand.Rand) *tcase {
 	}
 	// phase 4: phase 1 again (mappings must be reused)
 	c.Phases = [][]sendSpec{p1, nil, p3, p1}
+	// half of the cases: a fifth phase after some sockets were closed and some of those addresses bound again
+	if rng.Intn(2) == 0 {
+		for si, ss := range c.Socks {
+			if ss.Connect == "" && rng.Intn(3) == 0 {
+				c.Handover = append(c.Handover, handSpec{Sock: si, Rebind: rng.Intn(3) != 0})
+			}
+		}
+		if len(c.Handover) > 0 {
+			p5 := append(append([]sendSpec{}, p1...), p3...)
+			c.Phases = append(c.Phases, p5)
+		}
+	}
 	return c
 }
 
@@ -1024,6 +1095,11 @@ func runCase(c *tcase, r *res.Result) (*viol, string) {
 	}
 	for pi, ph := range c.Phases {
 		atomic.StoreInt32(&w.phase, int32(pi))
+		if pi == len(c.Phases)-1 && pi >= 4 && len(c.Handover) > 0 {
+			if why := w.handover(pi, r); why != "" {
+				return nil, why
+			}
+		}
 		// group by socket: one sender goroutine per socket keeps per-socket order = write order
 		bySock := map[int][]sendSpec{}
 		if pi == 1 && c.Replies {
@@ -1050,6 +1126,12 @@ func runCase(c *tcase, r *res.Result) (*viol, string) {
 		var wg sync.WaitGroup
 		for si, sps := range bySock {
 			s := w.socks[si]
+			if !s.openIn(pi) {
+				if s.succ == nil {
+					continue
+				}
+				s = s.succ
+			}
 			wg.Add(1)
 			go func(s *sockM, sps []sendSpec, seed int64) {
 				defer wg.Done()
